@@ -316,7 +316,46 @@ def check(ctx):
             okg = sem == want
             if g is None and okg:
                 g = (grel, gconst, None, None, True)
-        ctx.ob("C07.5", rd.f, okg,
+        reshape_why = None
+        if not okg and g is None and grel == "NotEq":
+            # a reshape of the whole converted table to (number of rows, a,
+            # b) with a * b = width *is* the column check (ValueError ->
+            # FileInterfaceException); with -1 for the rows only the total
+            # count is validated
+            nrows = tm.call(tm.glob("builtins.len"), (rd.raw,), ())
+            for e in rd.r.of_kind("call"):
+                if e.data.get("name") != ".reshape" or not any(
+                        "ValueError" in hs or "Exception" in hs
+                        for _, hs in e.tries):
+                    continue
+                a_ = list(e.data["args"])
+                if len(a_) == 1 and a_[0].op in ("tuple", "list"):
+                    a_ = list(a_[0].args)
+                rest = [tm.const_val(z) for z in a_[1:]
+                        if tm.is_const(z) and type(tm.const_val(z)) is int]
+                prod = 1
+                for z in rest:
+                    prod *= z
+                if len(rest) != len(a_) - 1 or prod != gconst or not any(
+                        y is rd.raw for y in (e.data.get("recv") or
+                                              tm.NONE).walk()):
+                    continue
+                if a_[0] is nrows:
+                    okg = True
+                elif tm.is_const(a_[0], -1) or (
+                        a_[0].op == "unop" and a_[0].args[0] == "USub"):
+                    reshape_why = (
+                        f"{name}: the table is reshaped to (-1, "
+                        f"{', '.join(map(str, rest))}): only the *total* "
+                        f"number of entries has to be a multiple of "
+                        f"{gconst} — a pose spread over several lines or two "
+                        f"poses on one line are loaded with shifted columns "
+                        f"instead of being rejected")
+        if reshape_why:
+            ctx.ob("C07.5", rd.f, False, reshape_why,
+                   key=f"C07.5:{name}:column-guard")
+        else:
+          ctx.ob("C07.5", rd.f, okg,
                f"{name}: rows must have "
                f"{'exactly' if grel == 'NotEq' else 'at least'} {gconst} "
                f"entries (first-row guard raises FileInterfaceException)"
@@ -621,7 +660,8 @@ def check(ctx):
                    "3x4), bottom row 0 0 0 1, one pose per row in order"
                    if ok else f"KITTI reader layout deviates: {why}",
                    key="C07.1:kitti:matrix")
-            ctx.ob("C07.6", rd.f, g is not None and g[1] == 12,
+            ctx.ob("C07.6", rd.f, (g is not None and g[1] == 12) or (
+                       g is None and okg and gconst == 12),
                    "KITTI: guard constant 12 = 3x4 entries used",
                    key="C07.6:kitti")
             ctx.ob("C07.3", rd.f, not any(
